@@ -484,6 +484,32 @@ impl W {
             }
         }
         if expect_compile && c.chance(60) {
+            // a module file that exists but cannot be read as text (a Latin-1 byte in a comment): the package does
+            // not load, for any sub-command, whether the module is `sub/mod.roto` or `sub.roto`; its rejecting test
+            // must not silently drop out
+            let io = |e: std::io::Error| ("io".to_string(), e.to_string());
+            for as_dir in [true, false] {
+                let bd = self.tmp.join(if as_dir { "unreadable-dir" } else { "unreadable-file" });
+                std::fs::create_dir_all(bd.join("sub")).map_err(io)?;
+                std::fs::write(bd.join("pkg.roto"), "fn main() {\n    print(\"ran-main-unreadable\");\n}\ntest t_ok {\n    accept\n}\n").map_err(io)?;
+                let bytes: &[u8] = b"// caf\xe9\ntest sub_rejects {\n    reject\n}\n";
+                if as_dir {
+                    std::fs::write(bd.join("sub").join("mod.roto"), bytes).map_err(io)?;
+                } else {
+                    std::fs::write(bd.join("sub.roto"), bytes).map_err(io)?;
+                }
+                let bds = bd.to_string_lossy().to_string();
+                for sub in ["check", "test"] {
+                    let out = Command::new(&self.cli).args([sub, &bds]).output().map_err(io)?;
+                    evals += 1;
+                    let err = String::from_utf8_lossy(&out.stderr).to_string();
+                    if out.status.success() || err.contains("panicked at") {
+                        return Err((format!("cli-{sub}-status:unreadable-module"), format!("`roto {sub}` on a package whose module {} is not valid UTF-8 (and holds a rejecting test): exit success = {}, stderr:\n{err}", if as_dir { "sub/mod.roto" } else { "sub.roto" }, out.status.success())));
+                    }
+                }
+            }
+        }
+        if expect_compile && c.chance(60) {
             // a module given twice, as `dup.roto` and as `dup/mod.roto`: a compile error for every sub-command,
             // reported, not a crash
             let dd = self.tmp.join("twice");
